@@ -6,7 +6,7 @@ PLAN = {
         "text": "For ALL Unicode strings the escaped output of sanitize_label_value / sanitize_description parses as a sequence of escape units (no raw LF, every backslash starts a valid two-char escape, no unescaped quote in label values) -- proved with a loop invariant on the real loop; write_type_line / write_help_line / write_metric_line are proved to emit exactly `name [unit-suffix] [_suffix] [{labels}] value LF` with the sample name = family name (+ allowed suffix), for every unit, suffix, label list and extra label.",
         "note": "Assumed: vstd String/char specs; number formatting (Display) uninterpreted; metrics::Unit::as_str uninterpreted; name sanitisers (iterator chains) only bounded (<=3 ASCII chars) plus complete char classes; render()'s HELP/TYPE/sample ordering across HashMap drains is NOT decided here.",
     },
-    "min_obligations": {"quick": 12, "thorough": 12},
+    "min_obligations": {"quick": 13, "thorough": 13},
     "assumptions": [
         "vstd specifications of String::{push, push_str}, str::chars, slices; String::with_capacity yields an empty string (assumed)",
         "R11: Display::to_string rendering is an uninterpreted function of the value (number formatting is std's)",
@@ -17,6 +17,16 @@ PLAN = {
     "verus": [
         {"template": "formatting.verus.rs", "tier": "quick", "rlimit": 60, "min_functions": 12},
     ],
+    "kani": [{
+        "crate": "metrics-exporter-prometheus", "cargo_args": ["--no-default-features"], "parallel": 3, "build_timeout": 3000,
+        "modules": [{"file": "metrics-exporter-prometheus/src/formatting.rs", "mod": "__verif_c08", "src": "chars.kani.rs"}],
+        "functions": [{"item": "valid_metric_name_start_character, valid_metric_name_character, valid_label_key_start_character, valid_label_key_character, sanitize_metric_name, sanitize_label_key", "file": "metrics-exporter-prometheus/src/formatting.rs"}],
+        "harnesses": [
+            {"name": "c08_char_classes", "obligation": "C08/kani/c08_char_classes", "clause": "each valid_* predicate == its Prometheus character class, for every char", "kind": "complete", "tier": "quick", "timeout": 900, "replay": True, "covers": 2},
+            {"name": "c08_sanitize_metric_name", "obligation": "C08/kani/c08_sanitize_metric_name", "clause": "same length; position 0 in start class else '_'; others in continue class else '_'", "kind": "bounded", "bound": "1..=3 ASCII chars", "tier": "quick", "timeout": 1200, "replay": True, "covers": 1},
+            {"name": "c08_sanitize_label_key", "obligation": "C08/kani/c08_sanitize_label_key", "clause": "same length; position 0 in start class else '_'; others in continue class else '_'", "kind": "bounded", "bound": "1..=3 ASCII chars", "tier": "quick", "timeout": 1200, "replay": True, "covers": 1},
+        ],
+    }],
     "witnesses": [
         {"match": r"write_metric_line", "src": "witness_unit_suffix.rs", "crate": "metrics-exporter-prometheus",
          "file": "metrics-exporter-prometheus/src/formatting.rs"},
